@@ -5,6 +5,7 @@ seeded simulated histories are rendered to policy documents, compiled with the r
 through VmPolicy + VmPolicyIO on a runtime linear-storage perspective (DESIGN §5 C29)."""
 import collections
 import json
+import os
 
 import verif
 
@@ -98,6 +99,16 @@ def corrupt(b):
     return None
 
 
+def pinned(prop):
+    d = os.path.join(verif.REPLAYS, "pinned")
+    out = []
+    if os.path.isdir(d):
+        for f in sorted(os.listdir(d)):
+            if f.startswith(prop + "-") and f.endswith(".json"):
+                out.append(json.load(open(os.path.join(d, f)))["case"]["input"])
+    return out
+
+
 def run(ctx):
     vh = ctx.build("vmpolicy")
     if ctx.replay:
@@ -122,6 +133,7 @@ def run(ctx):
     if missing:
         raise verif.ToolError("vacuous cover run: never generated: %s" % ", ".join(missing))
     stamp(cover, ctx.seed * 1000003)
+    cover = cover + pinned("C29")          # regressions of the two fixed findings (keep their own cx)
     res = ctx.run_engine(vh, "facts", cover, tag="cover", timeout=1800)
     if len(res) != len(cover):
         raise verif.ToolError("engine returned %d results for %d behaviours" % (len(res), len(cover)))
